@@ -75,12 +75,13 @@ func (c *Ctx) compareUnits(a, b *Unit) (string, map[string]any) {
 
 func checkC14(c *Ctx) {
 	r := c.R
-	r.Explain = "Decides structural clauses of C14 statically. R14c: the set of codec file names (units whose emitted text declares MarshalJSON/UnmarshalJSON) each Go plugin can create is read from the reconstructed NewGeneratedFile name expressions and must pair up. R14a: for each paired unit, the emission grammars of the two generators are walked under identical decisions (every arm of every guard, and — thorough — every pair of arms) and the emitted lines must be equal apart from the generator name in line 1. R14b: both plugins' generateFile are walked under identical decisions (in particular 'file has no services') and must create the same set of paired codec files. R14d: every non-emitting helper reached from a paired unit (collectors, predicates) must be the same function in both packages modulo local renaming. Not decided: nothing value-level is needed; equality is decided on the explored decision combinations, not proved for all."
+	r.Explain = "Decides structural clauses of C14 statically. R14c: the set of codec file names (units whose emitted text declares MarshalJSON/UnmarshalJSON) each Go plugin can create is read from the reconstructed NewGeneratedFile name expressions and must pair up. R14a: for each paired unit, the emission grammars of the two generators are walked under identical decisions (every arm of every guard, and — thorough — every pair of arms) and the emitted lines must be equal apart from the generator name in line 1. R14b: both plugins' generateFile are walked under identical decisions (in particular 'file has no services') and must create the same set of paired codec files. R14d: non-emitting helpers reached from a paired unit (collectors, predicates) are compared modulo local renaming; equality is a certificate, a difference (one copy refactored) is not by itself a violation. R14e: both plugins' unit emitters, collectors included, are interpreted (walker in concrete mode) on the same concrete corpus files — annotated messages at top level, nested under un-annotated and under annotated parents, every annotation constant, annotations on unexpected kinds, partially annotated enums with equal short names — and must print the same lines. Not decided: nothing value-level is needed; equality is decided on the explored decision combinations, not proved for all."
 	r.Trusted = []string{"protogen.GeneratedFile.P prints its arguments concatenated (compiler/protogen/protogen.go)", "go/types resolution of callees"}
 	r.Rule("R14c", "every codec unit of one Go plugin has a twin with the same file-name expression in the other", 8)
 	r.Rule("R14a", "paired units: identical emitted lines under identical decisions (header generator name excepted)", 8)
 	r.Rule("R14b", "generateFile of both plugins creates the same paired codec files under identical decisions", 4)
-	r.Rule("R14d", "helpers (non-emitting) reached from paired units are the same function modulo local renaming", 20)
+	r.Rule("R14d", "helpers (non-emitting) reached from paired units: syntactic certificate (identical modulo renaming), differences are decided by R14a/R14e", 1)
+	r.Rule("R14e", "both plugins emit the same codec file for every concrete corpus file (annotated messages at top level, nested under plain and annotated parents, partially annotated enums, every annotation constant)", 8)
 
 	level := 1
 	maxRuns := 4000
@@ -228,7 +229,9 @@ func checkC14(c *Ctx) {
 		r.Count("wiring_variant_pairs", nw)
 	}
 
-	// ---- R14d helpers
+	// ---- R14d helpers: a syntactic certificate only. Copies that are the same function modulo local
+	// renaming need no further argument; copies that differ (one side was refactored) are decided by
+	// R14a (string/bool case tables are followed by the walker) and by R14e on the concrete corpus.
 	rename := map[string]string{"writeEncodingHeader": "writeHeader", "clientgen": "gen", "httpgen": "gen"}
 	var hRoots, cRoots []*types.Func
 	for _, suf := range paired {
@@ -247,7 +250,8 @@ func checkC14(c *Ctx) {
 			cReach[name(f)] = f
 		}
 	}
-	emitDiff := 0
+	emitDiff, same := 0, 0
+	var differing []string
 	for _, n := range sortedKeys(hReach) {
 		hf := hReach[n]
 		cn := n
@@ -256,27 +260,64 @@ func checkC14(c *Ctx) {
 		}
 		cf, ok := cReach[cn]
 		if c.W.IsEmitter(hf) {
-			// emitters are decided by R14a; AST equality is only a certificate
 			if ok && c.P.CanonFunc(hf, rename) != c.P.CanonFunc(cf, rename) {
 				emitDiff++
 			}
 			continue
 		}
-		if !ok {
-			r.Bad("R14d", "helper "+n, c.P.Pos(c.P.Decls[hf].Pos()), "helper reached from a paired go-http unit has no same-named counterpart reached from the go-client unit", nil)
-			continue
+		if ok && c.P.CanonFunc(hf, rename) == c.P.CanonFunc(cf, rename) {
+			same++
+		} else {
+			differing = append(differing, n)
 		}
-		same := c.P.CanonFunc(hf, rename) == c.P.CanonFunc(cf, rename)
-		r.CheckD(same, "R14d", "helper "+n, c.P.Pos(c.P.Decls[cf].Pos()),
-			"the go-http and go-client copies of this collection/predicate helper differ structurally (after dropping comments and renaming locals); which messages/fields get a codec may differ between the plugins",
-			map[string]any{"http_at": c.P.Pos(c.P.Decls[hf].Pos()), "client_at": c.P.Pos(c.P.Decls[cf].Pos())})
 	}
 	for _, n := range sortedKeys(cReach) {
-		if n == "(*Generator).writeEncodingHeader" {
+		if _, ok := hReach[n]; !ok && !c.W.IsEmitter(cReach[n]) && n != "(*Generator).writeEncodingHeader" {
+			differing = append(differing, n+" (go-client only)")
+		}
+	}
+	r.OKd("R14d", "non-emitting helpers of paired units: syntactic certificate", "", map[string]any{"identical_modulo_renaming": same, "differing_or_unpaired (decided by R14a/R14e)": differing})
+
+	// ---- R14e concrete corpus: both plugins' unit emitters are interpreted on the same concrete files
+	for _, suf := range paired {
+		files := corpusFor(suf)
+		if len(files) == 0 {
+			if suf == "_unwrap.pb.go" || suf == "_error_impl.pb.go" {
+				continue
+			}
+			r.Undec("R14e", "*"+suf+": no corpus file for this paired unit", "", "a paired codec unit has no concrete corpus; add one to corpus.go")
 			continue
 		}
-		if _, ok := hReach[n]; !ok && !c.W.IsEmitter(cReach[n]) {
-			r.Bad("R14d", "helper "+n, c.P.Pos(c.P.Decls[cReach[n]].Pos()), "helper reached from a paired go-client unit has no same-named counterpart in go-http", nil)
+		for _, cf := range files {
+			hu, hpos, hprob := c.runUnitConcrete(pkgHTTP, suf, cf.File)
+			cu, _, cprob := c.runUnitConcrete(pkgClient, suf, cf.File)
+			key := "*" + suf + " on " + cf.Name
+			if hprob != "" || cprob != "" {
+				r.Undec("R14e", key, hpos, fmt.Sprintf("the unit does not evaluate on the corpus file: go-http %q, go-client %q", hprob, cprob))
+				continue
+			}
+			hl, cl := unitLines(hu), unitLines(cu)
+			bad := ""
+			if len(hu) != len(cu) {
+				bad = fmt.Sprintf("go-http creates %d file(s), go-client %d", len(hu), len(cu))
+			} else if len(hl) == 0 {
+				bad = "neither plugin emits the unit for the corpus file (the corpus does not exercise it)"
+			} else {
+				for i := 0; i < len(hl) || i < len(cl); i++ {
+					a, b := "", ""
+					if i < len(hl) {
+						a = hl[i]
+					}
+					if i < len(cl) {
+						b = cl[i]
+					}
+					if normHeader(a) != normHeader(b) {
+						bad = fmt.Sprintf("line %d differs: go-http %q, go-client %q", i+1, a, b)
+						break
+					}
+				}
+			}
+			r.Check(bad == "", "R14e", key, hpos, fmt.Sprintf("go-http and go-client emit different *%s for the same concrete file (%s): %s", suf, cf.Name, bad))
 		}
 	}
 	r.Count("emitters_with_differing_ast_decided_by_R14a", emitDiff)
